@@ -21,7 +21,7 @@ DEFAULT_FEATURES = {
     "block_shadow": False,       # inner let shadowing an outer name
     "enum_print": False,         # printing an enum value
     "min_builtin": False,        # (min a b) on the VM
-    "charclass_vm": False,       # is_alpha / is_alnum / is_whitespace / is_upper / is_lower on the VM
+    "charclass_vm": True,        # fixed (was: wrong results on the VM) is_alpha / is_alnum / is_whitespace / is_upper / is_lower on the VM
     "cmp_same_operand": False,   # (< a a): cc -Werror=tautological-compare
     "strlen_in_cmp": False,      # str_length directly inside a comparison / cond: cc -Werror=sign-compare
     "import_fnvalue": False,     # imported function used as a value: cc fails
